@@ -46,7 +46,7 @@ def parse_complex_csv_line(
             field_value = empty_field_value
             continue  # skip delimiter
         elif ch == '"':
-            if len(field_value) == 0:
+            if len(field_value) == 0 and not flag_quotes_in_the_begining:
                 flag_quotes_in_the_begining = True
                 continue  # skip " in the begining of the field
             elif flag_quotes_in_the_begining:
